@@ -595,13 +595,16 @@ fn gen_all(tier: &str, rng: &mut Rng, emit: &mut dyn FnMut(String)) {
 /// such a day about once in several thousand expressions (seed `C03-hint-on-the-last-day-of-a-single-
 /// interval` was missed); the sweep visits each of them.
 pub fn hint_sweep(thorough: bool) -> Vec<(String, String, i64)> {
-    const EXTRA: [&str; 30] = [
+    const EXTRA: [&str; 33] = [
         "{y} Jan 1-{y2} Dec 31", "{y} Dec 24-{y} Dec 26", "{y} Nov 1-Mar 15", "{y} Feb 28-Mar 1", "{y} Dec 25", "{y} Feb 29",
         "{y} easter-{y} May 1", "{y} easter", "Jan 1 +3 days-Jan 20 -2 days", "{y} Dec 30+", "Dec 30+", "Mar 1-Mar 10", "Jan 31-Feb 3",
         "Dec 25", "{y} Mar 28-Apr 16", "{y} Jan 1-{y3} Jan 1", "Feb 28-Mar 1", "Feb 29-Mar 2", "Dec 31-Jan 1", "{y} Dec 31-{y2} Jan 1",
         "Mo", "Sa-Su", "Mo[1]", "Fr[-1]", "Mo[2] +1 day", "{y} week 10 Mo", "{y} Feb", "Feb", "{y}-{y2} week 53", "Jan 1+Su-Jan 10",
+        "week 40-52", "week 52", "week 02-52/10",
     ];
-    let years: &[i64] = if thorough { &[2023, 2024, 2027, 2032] } else { &[2024] };
+    // 2026 (and 2020, 2032) have 53 ISO weeks, 2024 has 52: the week selectors are swept in both kinds of year
+    // (seed `C03-week-52-taken-for-the-last-week` was caught by C02's hint clause but not by C03 while only 2024 was swept)
+    let years: &[i64] = if thorough { &[2023, 2024, 2026, 2027, 2032] } else { &[2024, 2026] };
     let mut out = Vec::new();
     let mut seen = std::collections::HashSet::new();
     for &y in years {
@@ -616,7 +619,11 @@ pub fn hint_sweep(thorough: bool) -> Vec<(String, String, i64)> {
             exprs.push(s);
         }
         for e in exprs {
-            if !seen.insert(e.clone()) {
+            if !thorough && y == 2026 && !e.contains("week") {
+                continue;
+            }
+            // the same sentence is swept again around another focus year (its boundary days differ)
+            if !seen.insert(format!("{y}:{e}")) {
                 continue;
             }
             let Ok(parsed) = opening_hours_syntax::parse(&e) else { continue };
@@ -723,6 +730,27 @@ pub fn gen_for(suite: &str, tier: &str, rng: &mut Rng, emit: &mut dyn FnMut(Stri
                     let next_january = if y < 9999 { ymd(y + 1, 1, 1)..=ymd(y + 1, 1, 12) } else { 0..=-1 };
                     for d in (ymd(y, 12, 20)..=ymd(y, 12, 31)).chain(ymd(y, 1, 1)..=ymd(y, 1, 12)).chain(next_january) {
                         emit(format!("c01.sched {d} - {e}"));
+                    }
+                }
+            }
+            // nth weekdays WITH a day offset (`Sa[-1] +7 days`, `Mo[-4] -1 day`): the position is counted in the month of
+            // the day the offset is undone to, whose length may differ from the month of the evaluated day — the fortnight
+            // around every month end of four years (seed `C01-nth-from-end-counted-in-the-wrong-month` was missed: the
+            // enumeration above has no offsets and the random sentences rarely combine a negative position with one)
+            for y in [2000, 2021, 2024, 2025] {
+                let mut days: Vec<i64> = Vec::new();
+                for m in 1..=12u32 {
+                    let first = ymd(y, m, 1);
+                    days.extend(first - 8..=first + 8);
+                }
+                for (i, w) in ["Mo", "Sa", "We"].iter().enumerate() {
+                    for n in [1, 5, -1, -2, -4, -5] {
+                        for off in ["+1 day", "-1 day", "+7 days", "-7 days", "+5 days", "-3 days"] {
+                            let e = enc(&format!("{w}[{n}] {off} 10:00-12:00"));
+                            for d in days.iter().filter(|d| thorough || (**d + i as i64 + n as i64) % 3 == 0) {
+                                emit(format!("c01.sched {d} - {e}"));
+                            }
+                        }
                     }
                 }
             }
